@@ -77,10 +77,13 @@ func (s *Stats) Sample(x string) {
 	}
 }
 func (s *Stats) Violate(v Violation) {
-	for _, o := range s.Violations {
-		if o.Signature == v.Signature && o.Scenario == v.Scenario && len(o.History) <= len(v.History) {
+	for i, o := range s.Violations {
+		if o.Signature == v.Signature {
 			s.Counters["violations_same_signature"]++
-			return // keep the shortest witness per signature and scenario
+			if len(v.History) < len(o.History) {
+				s.Violations[i] = v // keep the shortest witness per signature
+			}
+			return
 		}
 	}
 	s.Violations = append(s.Violations, v)
